@@ -15,6 +15,8 @@
       never fails and conserves the directed edges modulo cancellation of opposite pairs ([conserves]) —
       [C18_kmp_conserves_le2], for every ring of any length (plus an independent bounded enumeration).
     Outside the class the statement is false: [C18_class_boundary_F5] (four visits).
+    End to end (snapLevel, snapPolygon; all flag combinations): section END TO END below —
+    [C18_end_to_end_edges], [C18_snapPolygon_edges_are_routed_steps], [C18_end_to_end_area], [C18_snapPolygon_area].
     The nesting clause ("every hole lies inside or on its shell") has no theorem: search only. *)
 From Coq Require Import ZArith List Bool Permutation.
 From Texel Require Import Prelude.Base Index.Model Snap.Model Snap.ProofsBasics Snap.ProofsSplit
@@ -100,3 +102,210 @@ Example C18_example :
   kmpDeduplicate [(0,0);(4,0);(8,0);(4,0);(4,4)] = Ok [(0,0);(4,0);(8,0);(4,0);(4,4)] /\
   kmpDeduplicate [(0,0);(4,0);(0,0);(4,0);(0,0);(4,0);(4,4)] = Ok [(0,0);(4,0);(4,4)].
 Proof. vm_compute. repeat split; reflexivity. Qed.
+
+(** * END TO END: snapLevel / snapPolygon on the class
+
+    [routedClean g hots L idx r] is the routed-and-cleaned ring of input ring number [idx]: the ring is normalised
+    (shell counter-clockwise, holes clockwise), every edge is routed through the occupied pixel centres, the lists
+    are joined by cleanupNewVertices and the closing vertex is dropped.  It is exactly the argument on which the
+    model calls kmpDeduplicate ([C18_routedClean_is_kmp_argument]); it does not depend on the other rings.
+    The class: every such ring satisfies [le2] (no centre at three positions).  All theorems below hold for every
+    value of keep-points-and-lines and reverse-winding-order (ignore-outside-grid plays no role at one level);
+    kept points and lines are included among the returned rings. *)
+From Texel Require Import Index.ProofsRouting Snap.ProofsLevelJoin Snap.ProofsJoinC18.
+
+Theorem C18_routedClean_is_kmp_argument : forall g hots L cfg acc idx r acc', aAlive acc = true ->
+  ringStep g hots L cfg acc idx r = Ok acc' ->
+  exists c m sets, routedClean g hots L idx r = Ok c /\
+    (if (length c <? 3)%nat then Ok (mkSets [] [] (asPointOrLine c))
+     else do r2 <- kmpDeduplicate c;
+          if (length r2 <? 3)%nat then Ok (mkSets [] [] (asPointOrLine r2)) else splitRing r2 (Nat.eqb idx 0) m) = Ok sets /\
+    acc' = if deadb cfg (Nat.eqb idx 0) sets
+           then mkAcc false (aHits acc') (aOuters acc) (aInners acc) (aPL acc)
+           else mkAcc true (aHits acc') (aOuters acc ++ outers sets) (aInners acc ++ inners sets)
+                      (if keepPointsAndLines cfg then aPL acc ++ pointsAndLines sets else aPL acc).
+Proof. exact ringStep_kmp_argument. Qed.
+Print Assumptions C18_routedClean_is_kmp_argument.
+
+(** (E1) edges.  Every directed cyclic edge of every returned ring is, up to reversal of its direction (rings are
+    reversed as a whole by the role swap of splitRing, by turning an unmatched hole into a shell, and by the
+    reverse-winding-order flag), a directed cyclic edge of a routed-and-cleaned ring.  This is stronger than
+    "a routed edge or a straight run of consecutive routed edges": on the class no run is ever merged. *)
+Theorem C18_end_to_end_edges : forall g hots P cfg L ps,
+  (forall idx r c, nth_error P idx = Some r -> routedClean g hots L idx r = Ok c -> le2 c) ->
+  snapLevel g hots P cfg L = Ok (Some ps) ->
+  forall poly x e, In poly ps -> In x poly -> In e (cedges x) ->
+    exists idx r c, nth_error P idx = Some r /\ routedClean g hots L idx r = Ok c /\
+                    (In e (cedges c) \/ In (swap e) (cedges c)).
+Proof. exact level_edges_end_to_end. Qed.
+Print Assumptions C18_end_to_end_edges.
+
+(** cleanupNewVertices merges nothing (it drops the joint shared by two consecutive lists), so with exact routing
+    ([routing_ok]: every list starts at the centre of the pixel of its start vertex, ends at that of its end vertex,
+    and has no two equal neighbours — C02) the cyclic edges of a routed-and-cleaned ring are routed steps: two
+    consecutive centres of the list snapClosestPoints returns for one edge of the normalised input ring *)
+Theorem C18_cleaned_edges_are_routed_steps : forall g hots L idx r c,
+  routing_ok g hots L (ensureCorrectWindingOrder r (negb (Nat.eqb idx 0))) ->
+  routedClean g hots L idx r = Ok c ->
+  forall e, In e (cedges c) ->
+    exists a b, In (a, b) (dedges (ensureCorrectWindingOrder r (negb (Nat.eqb idx 0)))) /\
+                In e (ProofsBasics.pairs (snapClosestPoints g hots a b L)).
+Proof. exact routedClean_edges_routed. Qed.
+Print Assumptions C18_cleaned_edges_are_routed_steps.
+
+(** ... hence, for snapPolygon with the routing premise discharged from C02 (grids whose stored extent covers their
+    pixels, requested levels within the index): every edge of every returned ring of every requested level is, up to
+    direction, a routed step of one edge of the polygon *)
+Theorem C18_snapPolygon_edges_are_routed_steps : forall g P levels cfg res hs, 0 < gres g -> RootCovers g ->
+  (forall L, In L levels -> (L <= gdeep g)%nat) ->
+  insertPolygon g P = Ok hs ->
+  (forall L idx r c, In L levels -> nth_error P idx = Some r ->
+     routedClean g (hotLevels g hs) L idx r = Ok c -> le2 c) ->
+  snapPolygon g P levels cfg = Ok res ->
+  forall L ps poly x e, In (L, ps) res -> In poly ps -> In x poly -> In e (cedges x) ->
+    exists idx r a b, nth_error P idx = Some r /\
+      In (a, b) (dedges (ensureCorrectWindingOrder r (negb (Nat.eqb idx 0)))) /\
+      (In e (ProofsBasics.pairs (snapClosestPoints g (hotLevels g hs) a b L)) \/
+       In (swap e) (ProofsBasics.pairs (snapClosestPoints g (hotLevels g hs) a b L))).
+Proof.
+  intros g P levels cfg res hs Hr C HLs Hi Hcl.
+  exact (snap_edges_routed_steps g P levels cfg res hs Hr C HLs Hi (fun L HL idx r c => Hcl L idx r c HL)).
+Qed.
+Print Assumptions C18_snapPolygon_edges_are_routed_steps.
+
+(** (E2) signed area ([xprod] = twice the signed area, counter-clockwise positive; shells come out counter-clockwise,
+    holes clockwise, so summing [xprod] over all returned rings is the doubled signed area of the returned geometry).
+    Input ring number i has the routed-and-cleaned ring c_i and contributes k_i to the collected shells and holes,
+    where k_i = xprod c_i, or — the documented whole-ring reversal of splitRing: all pieces landed in the other
+    role — k_i = - xprod c_i, and then the routed ring ran the wrong way round (routed shell clockwise, routed hole
+    counter-clockwise).  The returned geometry has the sum of the k_i, except that every hole [t] that found no shell
+    is returned as a polygon of its own, reversed ([tu]); all of it negated under reverse-winding-order.
+    Nothing else: spikes removed by kmpDeduplicate and cancelling shell/hole pairs contribute zero, rings of fewer
+    than three vertices (kept or dropped) have area zero.  No area is invented or lost. *)
+Theorem C18_end_to_end_area : forall g hots P cfg L ps,
+  (forall idx r c, nth_error P idx = Some r -> routedClean g hots L idx r = Ok c -> le2 c) ->
+  snapLevel g hots P cfg L = Ok (Some ps) ->
+  exists (cks : list (ring * Z)) (tu : list ring),
+    Forall2 (fun (ir : nat * ring) (ck : ring * Z) =>
+               routedClean g hots L (fst ir) (snd ir) = Ok (fst ck) /\
+               (snd ck = xprod (fst ck) \/
+                (snd ck = - xprod (fst ck) /\
+                 if Nat.eqb (fst ir) 0 then xprod (fst ck) < 0 else 0 < xprod (fst ck))))
+            (indexed 0 P) cks /\
+    Forall (fun t : ring => (3 <= length t)%nat /\ xprod t <= 0 /\
+                            In [if reverseWindingOrder cfg then rev (rev t) else rev t] ps) tu /\
+    sum_xprod (concat ps) =
+      (if reverseWindingOrder cfg then -1 else 1) * (sumZ (map snd cks) - 2 * sum_xprod tu).
+Proof. exact level_area_end_to_end. Qed.
+Print Assumptions C18_end_to_end_area.
+
+(** the exact form: when the routed shell does not run clockwise and no routed hole runs counter-clockwise, the
+    doubled signed area of the returned geometry is that of the routed-and-cleaned rings, up to holes that found
+    no shell *)
+Theorem C18_end_to_end_area_roles_kept : forall g hots P cfg L ps,
+  (forall idx r c, nth_error P idx = Some r -> routedClean g hots L idx r = Ok c -> le2 c) ->
+  (forall idx r c, nth_error P idx = Some r -> routedClean g hots L idx r = Ok c ->
+     if Nat.eqb idx 0 then 0 <= xprod c else xprod c <= 0) ->
+  snapLevel g hots P cfg L = Ok (Some ps) ->
+  exists cs tu,
+    routedRings g hots L P = Ok cs /\
+    Forall (fun t : ring => (3 <= length t)%nat /\ xprod t <= 0 /\
+                            In [if reverseWindingOrder cfg then rev (rev t) else rev t] ps) tu /\
+    sum_xprod (concat ps) = (if reverseWindingOrder cfg then -1 else 1) * (sum_xprod cs - 2 * sum_xprod tu).
+Proof. exact level_area_roles_kept. Qed.
+Print Assumptions C18_end_to_end_area_roles_kept.
+
+(** snapPolygon, every requested level *)
+Theorem C18_snapPolygon_area : forall g P levels cfg res hs, insertPolygon g P = Ok hs ->
+  (forall L idx r c, In L levels -> nth_error P idx = Some r ->
+     routedClean g (hotLevels g hs) L idx r = Ok c -> le2 c) ->
+  snapPolygon g P levels cfg = Ok res ->
+  forall L ps, In (L, ps) res ->
+  exists (cks : list (ring * Z)) (tu : list ring),
+    Forall2 (fun (ir : nat * ring) (ck : ring * Z) =>
+               routedClean g (hotLevels g hs) L (fst ir) (snd ir) = Ok (fst ck) /\
+               (snd ck = xprod (fst ck) \/
+                (snd ck = - xprod (fst ck) /\
+                 if Nat.eqb (fst ir) 0 then xprod (fst ck) < 0 else 0 < xprod (fst ck))))
+            (indexed 0 P) cks /\
+    Forall (fun t : ring => (3 <= length t)%nat /\ xprod t <= 0 /\
+                            In [if reverseWindingOrder cfg then rev (rev t) else rev t] ps) tu /\
+    sum_xprod (concat ps) =
+      (if reverseWindingOrder cfg then -1 else 1) * (sumZ (map snd cks) - 2 * sum_xprod tu).
+Proof.
+  intros g P levels cfg res hs Hi Hcl.
+  exact (snap_area_end_to_end g P levels cfg res hs Hi (fun L HL idx r c => Hcl L idx r c HL)).
+Qed.
+Print Assumptions C18_snapPolygon_area.
+
+(** the two role changes are needed for ARBITRARY lists of rings: the plain equation "returned area = area of the
+    routed-and-cleaned rings" is false of the model.  The witnesses are NOT valid polygons (a self-crossing ring whose
+    routed ring runs clockwise and is reversed as a whole; a "hole" outside its shell that becomes a shell).  For valid
+    polygons neither was ever observed — the harness checks the plain equation on the implementation — but ruling
+    them out needs that routing preserves the topology of a valid polygon (C01), which is not a theorem. *)
+Theorem C18_end_to_end_area_plain_refuted : exists g P cfg L ps cs,
+  class_le2 g (hotsOf g P) L P /\ snapLevel g (hotsOf g P) P cfg L = Ok (Some ps) /\
+  routedRings g (hotsOf g P) L P = Ok cs /\ length P = 1%nat /\
+  sum_xprod (concat ps) = - (flipz cfg * sum_xprod cs) /\ sum_xprod cs <> 0.
+Proof. exact level_area_exact_refuted. Qed.
+Print Assumptions C18_end_to_end_area_plain_refuted.
+
+Theorem C18_end_to_end_area_plain_refuted_turned_hole : exists g P cfg L ps cs,
+  class_le2 g (hotsOf g P) L P /\ roles_kept g (hotsOf g P) L P /\
+  snapLevel g (hotsOf g P) P cfg L = Ok (Some ps) /\ routedRings g (hotsOf g P) L P = Ok cs /\
+  sum_xprod (concat ps) <> flipz cfg * sum_xprod cs.
+Proof. exact level_area_turned_hole_witness. Qed.
+Print Assumptions C18_end_to_end_area_plain_refuted_turned_hole.
+
+(** ** non-vacuity, end to end (32 x 32 pixels of size 2; level 3 has pixels of size 8).
+    A valid polygon made of two blocks joined by a corridor of width 2: at level 3 the corridor collapses to the
+    line (20,28)-(44,28), which the routed ring runs through in both directions (each end is visited twice: the
+    class, not the repeat-free case).  The level returns the two blocks as two polygons plus the kept line; every
+    returned edge is an edge of the routed ring; the doubled area 3584 of the routed ring is that of the result.
+    With reverse-winding-order and without keep: two clockwise blocks, -3584. *)
+Definition c18G : grid := mkGrid (mkExtent 0 0 64 64) 2 5.
+Definition c18Neck : list ring :=
+  [[(2,2);(22,2);(22,29);(42,29);(42,2);(62,2);(62,62);(42,62);(42,31);(22,31);(22,62);(2,62)]].
+Definition c18NeckRouted : ring :=
+  [(4,4);(20,4);(20,28);(44,28);(44,4);(60,4);(60,60);(44,60);(44,28);(20,28);(20,60);(4,60)].
+
+Example C18_end_to_end_example_neck :
+  (forall L, In L [5; 3; 2]%nat -> class_le2 c18G (hotsOf c18G c18Neck) L c18Neck) /\
+  roles_kept c18G (hotsOf c18G c18Neck) 3 c18Neck /\
+  routedRings c18G (hotsOf c18G c18Neck) 3 c18Neck = Ok [c18NeckRouted] /\
+  cntp (20,28) c18NeckRouted = 2%nat /\ cntp (44,28) c18NeckRouted = 2%nat /\
+  snapLevel c18G (hotsOf c18G c18Neck) c18Neck (mkConfig true false false) 3 =
+    Ok (Some [[[(4,4);(20,4);(20,28);(20,60);(4,60)]]; [[(44,28);(44,4);(60,4);(60,60);(44,60)]]; [[(20,28);(44,28)]]]) /\
+  xprod c18NeckRouted = 3584 /\
+  sum_xprod (concat [[[(4,4);(20,4);(20,28);(20,60);(4,60)]]; [[(44,28);(44,4);(60,4);(60,60);(44,60)]]; [[(20,28);(44,28)]]]) = 3584 /\
+  snapLevel c18G (hotsOf c18G c18Neck) c18Neck (mkConfig false false true) 3 =
+    Ok (Some [[[(4,60);(20,60);(20,28);(20,4);(4,4)]]; [[(44,60);(60,60);(60,4);(44,4);(44,28)]]]) /\
+  sum_xprod (concat [[[(4,60);(20,60);(20,28);(20,4);(4,4)]]; [[(44,60);(60,60);(60,4);(44,4);(44,28)]]]) = -3584 /\
+  snapPolygon c18G c18Neck [5; 3; 2]%nat (mkConfig true false false) =
+    Ok [(5%nat, [[[(3,3);(23,3);(23,29);(43,29);(43,3);(63,3);(63,63);(43,63);(43,31);(23,31);(23,63);(3,63)]]]);
+        (3%nat, [[[(4,4);(20,4);(20,28);(20,60);(4,60)]]; [[(44,28);(44,4);(60,4);(60,60);(44,60)]]; [[(20,28);(44,28)]]]);
+        (2%nat, [[[(8,8);(24,8);(24,24);(24,56);(8,56)]]; [[(40,24);(40,8);(56,8);(56,56);(40,56)]]; [[(24,24);(40,24)]]])].
+Proof.
+  split.
+  { intros L HL. apply class_le2b_sound. cbn [In] in HL.
+    destruct HL as [<- | [<- | [<- | []]]]; vm_compute; reflexivity. }
+  split.
+  { intros idx r c Hn Hr. destruct idx as [| idx]; [| destruct idx; discriminate].
+    cbn [nth_error] in Hn. inversion Hn; subst r. vm_compute in Hr. inversion Hr; subst c. vm_compute. discriminate. }
+  vm_compute. repeat split; reflexivity.
+Qed.
+
+(** a shell with a spike (collapsing to a line at level 3, its foot (20,44) visited twice) and a hole: the hole is
+    matched to the shell; the doubled areas 3200 (shell) and -128 (hole) of the routed rings add up to the result *)
+Definition c18Spike : list ring :=
+  [[(2,2);(40,2);(40,40);(21,40);(20,60);(19,40);(2,40)]; [(10,10);(10,20);(20,20);(20,10)]].
+
+Example C18_end_to_end_example_spike_and_hole :
+  class_le2 c18G (hotsOf c18G c18Spike) 3 c18Spike /\
+  routedRings c18G (hotsOf c18G c18Spike) 3 c18Spike =
+    Ok [[(4,4);(44,4);(44,44);(20,44);(20,60);(20,44);(4,44)]; [(12,12);(12,20);(20,20);(20,12)]] /\
+  xprod [(4,4);(44,4);(44,44);(20,44);(20,60);(20,44);(4,44)] = 3200 /\ xprod [(12,12);(12,20);(20,20);(20,12)] = -128 /\
+  snapLevel c18G (hotsOf c18G c18Spike) c18Spike (mkConfig true false false) 3 =
+    Ok (Some [[[(4,4);(44,4);(44,44);(20,44);(4,44)]; [(12,12);(12,20);(20,20);(20,12)]]; [[(20,44);(20,60)]]]) /\
+  sum_xprod (concat [[[(4,4);(44,4);(44,44);(20,44);(4,44)]; [(12,12);(12,20);(20,20);(20,12)]]; [[(20,44);(20,60)]]]) = 3200 - 128.
+Proof. split; [apply class_le2b_sound; vm_compute; reflexivity |]. vm_compute. repeat split; reflexivity. Qed.
